@@ -55,6 +55,7 @@ def gen(rng: Any, prop: str, tier: str) -> dict[str, Any]:
     sids = [f"s{i}" for i in range(k)]
     tables = {sid: [f"T_{sid.upper()}"] + ([f"U_{sid.upper()}"] if rng.random() < 0.4 else []) for sid in sids}
     setup = [f"CREATE TABLE {DB}.{SC}.{t} (id INT, who VARCHAR(10))" for sid in sids for t in tables[sid]]
+    setup += [f"CREATE TABLE {DB}.{SC}.R_{sid.upper()} (id INT, who VARCHAR(10)) COMMENT = 'r0'" for sid in sids]
     uid = [100]
 
     def fresh() -> int:
@@ -126,6 +127,21 @@ def gen(rng: Any, prop: str, tier: str) -> dict[str, Any]:
                         "sql": f"MERGE INTO {t} USING (SELECT {ids[0]} AS id, '{sid}' AS who) src ON {t}.id = src.id WHEN NOT MATCHED THEN INSERT (id, who) VALUES (src.id, src.who)"})
             if open_txn[sid]:
                 mine_in_txn[sid].append((t, ids[0]))
+            continue
+        if kind == "insert" and open_txn[sid] and rng.random() < 0.12:
+            # DROP + CREATE of the same table inside the transaction: whatever ends the transaction, the table's
+            # Snowflake-side metadata (VARCHAR length, comment) must be there afterwards - from the new or the old declaration
+            r = f"R_{sid.upper()}"
+            ops.append({"s": sid, "k": "exec", "cur": cur, "sql": f"DROP TABLE {r}", "recreate": r})
+            ops.append({"s": sid, "k": "exec", "cur": cur, "sql": f"CREATE TABLE {r} (id INT, who VARCHAR(10)) COMMENT = 'r{fresh()}'", "recreate": r})
+            continue
+        if kind == "insert" and rng.random() < 0.12:
+            # the same rows through write_pandas
+            t = rng.choice(tables[sid])
+            ids = [fresh() for _ in range(rng.choice([1, 2, 3]))]
+            ops.append({"s": sid, "k": "write_pandas", "merge": True, "table": t, "database": DB, "schema": SC, "cols": ["ID", "WHO"], "rows": [[i, sid] for i in ids], "w": {"table": t, "ids": ids}})
+            if open_txn[sid]:
+                mine_in_txn[sid].extend((t, i) for i in ids)
             continue
         if kind == "insert" and rng.random() < 0.15:
             # the same rows through executemany (one engine statement per parameter row)
@@ -262,6 +278,8 @@ def check_history(history: list[dict[str, Any]], probes: dict[str, int]) -> dict
                         txns.append(tx)
                     tx["rows"][i] = {"table": op["w"]["table"], "h": h}
                     row_txn[i] = tx
+            elif "recreate" in op:
+                probes["recreate_in_txn"] = probes.get("recreate_in_txn", 0) + 1
             elif "ddl" in op:
                 tx = cur
                 if tx is None:
@@ -454,6 +472,19 @@ def run(case: dict[str, Any]) -> dict[str, Any]:
                                    {"table": t, "expected": exp.get(t, []), "observed": got.get(t, [])})
                     break
             probes["table_created_in_txn"] = sum(1 for o in case["ops"] if "ddl" in o)
+            if violation is None and any("recreate" in o for o in case["ops"]):
+                ext = world_ext(world)
+                have_len = {str(r[2]) for k2, rows in ext.items() if k2.endswith("_fs_columns_ext") for r in rows if len(r) > 4 and str(r[3]).upper() == "WHO" and r[4] == 10}
+                have_cm = {str(r[2]) for k2, rows in ext.items() if k2.endswith("_fs_tables_ext") for r in rows if len(r) > 3 and r[3]}
+                doomed_sessions = {h["s"] for h in history if h["op"].get("fail_runtime")}
+                for sid in sorted(case["config"]["tables"]):
+                    r = f"R_{sid.upper()}"
+                    if sid in doomed_sessions or not any(o.get("recreate") == r for o in case["ops"]):
+                        continue
+                    if r not in have_len or r not in have_cm:
+                        violation = v_("metadata-lost/recreate-in-txn", "a table dropped and re-created inside a transaction has its declared VARCHAR length and comment afterwards (committed or rolled back)",
+                                       {"table": r, "has_length_row": r in have_len, "has_comment_row": r in have_cm})
+                        break
             if violation is None:
                 # a rolled-back CREATE TABLE leaves nothing behind - also not in fakesnow's side tables (VARCHAR lengths, comments)
                 gone = rolled_back_tables(history)
